@@ -43,8 +43,21 @@ fn id_matches(s: &str, f: &[u8]) -> bool {
 #[kani::stub(std::fmt::format, crate::models::fmt_format_stub)]
 #[kani::stub(core::str::from_utf8, crate::models::from_utf8_stub)]
 fn c02d_standard_header_all_bytes() {
+    std_header_body(None);
+}
+
+/// Same with the full 16 bytes available (no truncation): quick tier.
+#[kani::proof]
+#[kani::unwind(18)]
+#[kani::stub(std::fmt::format, crate::models::fmt_format_stub)]
+#[kani::stub(core::str::from_utf8, crate::models::from_utf8_stub)]
+fn c02d_standard_header_full_length() {
+    std_header_body(Some(16));
+}
+
+fn std_header_body(fixed: Option<usize>) {
     let buf: [u8; 16] = kani::any();
-    let len: usize = kani::any();
+    let len: usize = match fixed { Some(n) => n, None => kani::any() };
     kani::assume(len <= 16);
     let input = &buf[..len];
     let b = buf[0];
@@ -93,8 +106,10 @@ fn c02d_standard_header_all_bytes() {
             if let nom::Needed::Size(k) = n {
                 assert!(k.get() >= 1 && k.get() <= std_len - len, "hint exceeds the missing header bytes");
             }
-            kani::cover!(len == 0, "empty input incomplete");
-            kani::cover!(len == 15, "15 bytes incomplete");
+            if fixed.is_none() {
+                kani::cover!(len == 0, "empty input incomplete");
+                kani::cover!(len == 15, "15 bytes incomplete");
+            }
         }
         Err(_) => {
             assert!(len >= std_len && declared < all_len, "hard error other than declared length < headers");
@@ -110,8 +125,21 @@ fn c02d_standard_header_all_bytes() {
 #[kani::stub(std::fmt::format, crate::models::fmt_format_stub)]
 #[kani::stub(core::str::from_utf8, crate::models::from_utf8_stub)]
 fn c02d_extended_header_all_bytes() {
+    ext_header_body(None);
+}
+
+/// Same with all 12 bytes available: quick tier.
+#[kani::proof]
+#[kani::unwind(14)]
+#[kani::stub(std::fmt::format, crate::models::fmt_format_stub)]
+#[kani::stub(core::str::from_utf8, crate::models::from_utf8_stub)]
+fn c02d_extended_header_full_length() {
+    ext_header_body(Some(12));
+}
+
+fn ext_header_body(fixed: Option<usize>) {
     let buf: [u8; 12] = kani::any();
-    let len: usize = kani::any();
+    let len: usize = match fixed { Some(n) => n, None => kani::any() };
     kani::assume(len <= 12);
     let input = &buf[..len];
     match ph::extended_header(input) {
@@ -132,7 +160,9 @@ fn c02d_extended_header_all_bytes() {
             if let nom::Needed::Size(k) = n {
                 assert!(k.get() >= 1 && k.get() <= 10 - len);
             }
-            kani::cover!(len == 9);
+            if fixed.is_none() {
+                kani::cover!(len == 9);
+            }
         }
         Err(_) => assert!(false, "extended header hard error"),
     }
